@@ -59,6 +59,7 @@ class Check:
         self.analysed_units: set = set()
         self.cfg_nodes = 0
         self.selftest: Optional[Dict[str, Any]] = None
+        self.rule_errors: List[str] = []
 
     # --------------------------------------------------------------- record
     def rule(self, rid: str, text: str, floor: int = 1) -> None:
@@ -88,6 +89,16 @@ class Check:
         self.instances.append(inst)
         return inst
 
+    def call(self, fn, *args, **kw):
+        """Run one rule function.  A vanished anchor inside it (AnalysisError) is recorded and
+        the remaining rules still run: a violation found by another rule must not be masked.
+        finish() turns recorded errors into exit 2 when nothing else was found."""
+        try:
+            return fn(*args, **kw)
+        except AnalysisError as e:
+            self.rule_errors.append(f"{getattr(fn, '__name__', 'rule')}: {e}")
+            return None
+
     def saw(self, unit, cfg=None):
         self.analysed_units.add(unit.qual)
         if cfg is not None:
@@ -110,7 +121,7 @@ class Check:
         for rid, floor in self.floors.items():
             # a rule that already reports a violation is not vacuous
             if counts.get(rid, 0) < floor and rid not in has_violation:
-                raise AnalysisError(
+                self.rule_errors.append(
                     f"rule {rid} matched {counts.get(rid, 0)} instance(s), "
                     f"floor confirmed by hand is {floor} - the rule would pass vacuously")
 
@@ -136,6 +147,13 @@ class Check:
                           if v.rule == replay_filter.get("rule")
                           and v.key() == replay_filter.get("key")]
 
+        if self.rule_errors:
+            if not violations:
+                # nothing else to report: the analysis itself is broken (exit 2)
+                raise AnalysisError("; ".join(self.rule_errors))
+            for msg in self.rule_errors:
+                print(f"NOTE property={self.pid} part of the analysis could not be carried out "
+                      f"on this tree ({msg}); the violations below were found by the rest")
         for kh in known_hits:
             e, inst = kh["entry"], kh["instance"]
             print(f"KNOWN-FINDING: property={self.pid} rule={inst.rule} "
